@@ -69,6 +69,18 @@ InstrFold(f, instrs, k, tbls, active, filtered) ==
   IF k > Len(instrs) \/ IsUnspec(f) THEN f
   ELSE InstrFold(InstrSem(f, instrs[k], tbls, active, filtered), instrs, k + 1, tbls, active, filtered)
 
+\* how often the library may call the functions handed in by one Apply: once per row for every
+\* instruction with a function that is executed, nothing after the first failing instruction (C06, C10).
+\* The failing instruction itself may or may not have run its function before the failure was noticed
+\* (an invalid destination name is only detected when the computed column is added): <<lo, hi>>.
+RECURSIVE ApplyCalls(_, _, _, _)
+ApplyCalls(f, instrs, k, tbls) ==
+  IF k > Len(instrs) \/ f.err \/ IsUnspec(f) THEN <<0, 0>>
+  ELSE LET g == InstrSem(f, instrs[k], tbls, [r \in 1..Max2(f.n, 0) |-> TRUE], FALSE)
+           here == IF instrs[k].fn.k \in {"fn0", "fn1", "fn2"} THEN f.n ELSE 0
+           rest == ApplyCalls(g, instrs, k + 1, tbls)
+       IN IF g.err \/ IsUnspec(g) THEN <<0, here>> ELSE <<here + rest[1], here + rest[2]>>
+
 ApplySem(f, instrs, tbls) == InstrFold(f, instrs, 1, tbls, [r \in 1..Max2(f.n, 0) |-> TRUE], FALSE)
 
 FilteredApplySem(f, clause, instrs, tbls) ==
